@@ -4,7 +4,15 @@ channel) and the fault-class generators (valid PDUs built with bumble's own clas
 
 An injection *unit* is a list of (target, bytes): target "chan" = raw bytes on the channel under test
 (L2CAP PDU on its CID / bytes of the AT stream / one HCI packet), "sig" = a PDU on the L2CAP signalling
-channel of the same link (used for the valid-disconnect class of dynamic channels).
+channel of the same link (used for the valid-disconnect class of dynamic channels), "use" = NORMAL USE of
+what the preceding parts of the unit negotiated (the bytes are the rig's own description of it: which DLC /
+channel to open and write on): a short script of well-formed PDUs that depends on the victim's answers
+(its CID, its credits), run inside the watchdog window of the same unit.
+
+Classes made of well-formed PDUs only (Stack/Robust.tla: Structured, "advance") are ENUMERATED, not drawn:
+`instances(cls)` lists (label, builder, continues) from the field layout of the protocol's PDUs
+(`field_extremes`: every numeric field x {0, 1, max}) or from the list of its PDU types; the driver runs
+every instance (variant index), in every phase of the reference transaction where the channel has one.
 """
 from __future__ import annotations
 
@@ -33,6 +41,7 @@ def auto_build(cls, rng, ints=(0, 1, 2, 3, 0x40, 0xFF), size=None, overrides=Non
     """instantiate a bumble PDU dataclass with plausible field values"""
     kw = {}
     overrides = overrides or {}
+    tops = dict(int_fields(cls))  # a value drawn for a narrower field is cut to the field's width
     for f in dataclasses.fields(cls):
         if not f.init or f.name in ("code", "name", "_payload", "op_code", "event_code", "subevent_code", "_parameters",
                                     "parameters", "hci_packet_type", "fields"):
@@ -47,7 +56,7 @@ def auto_build(cls, rng, ints=(0, 1, 2, 3, 0x40, 0xFF), size=None, overrides=Non
         if f.default is not dataclasses.MISSING or f.default_factory is not dataclasses.MISSING:
             continue
         if ts == "int":
-            kw[f.name] = rng.choice(ints)
+            kw[f.name] = rng.choice(ints) & tops.get(f.name, 0xFFFFFFFF)
         elif ts == "bytes":
             n = size if size is not None else rng.choice([0, 1, 2, 7, 16, 16, 16, 20])
             kw[f.name] = bytes(rng.getrandbits(8) for _ in range(n))
@@ -67,9 +76,79 @@ def auto_build(cls, rng, ints=(0, 1, 2, 3, 0x40, 0xFF), size=None, overrides=Non
             kw[f.name] = [avdtp.EndPointInfo(1, 0, 0, 1)]
         elif ts.startswith("list[") or ts.startswith("Sequence["):
             kw[f.name] = []
+        elif f.name in tops:
+            kw[f.name] = rng.choice(ints) & tops[f.name]
         else:
             kw[f.name] = 1
     return cls(**kw)
+
+
+# ----------------------------------------------------------------------------- extreme values from the field layout
+_NOT_FIELDS = ("code", "name", "_payload", "op_code", "event_code", "subevent_code", "_parameters", "parameters",
+               "hci_packet_type", "fields", "identifier", "transaction_id")
+
+
+def int_fields(cls):
+    """(name, largest value) of the numeric fields of a bumble PDU dataclass, read from its field layout
+    (the hci.metadata spec of each dataclass field: byte width, '>2', or a custom codec = one byte)"""
+    out = []
+    for f in dataclasses.fields(cls):
+        if not f.init or f.name in _NOT_FIELDS:
+            continue
+        md = f.metadata.get("bumble.hci") if f.metadata else None
+        spec = getattr(md, "spec", None)
+        if getattr(md, "list_begin", False) or getattr(md, "list_end", False):
+            continue
+        width = None
+        if isinstance(spec, int) and not isinstance(spec, bool) and 1 <= abs(spec) <= 8:
+            width = abs(spec)
+        elif isinstance(spec, str) and spec.lstrip("<>").isdigit() and 1 <= int(spec.lstrip("<>")) <= 8:
+            width = int(spec.lstrip("<>"))
+        elif isinstance(spec, dict) and "size" in spec and isinstance(spec["size"], int) and 1 <= spec["size"] <= 8:
+            width = spec["size"]
+        elif isinstance(spec, dict) and callable(spec.get("serializer")):
+            try:  # a custom codec (enumerations, flags, 6-bit SEIDs): its width is what it writes for 0
+                w = len(spec["serializer"](0))
+                width = w if 1 <= w <= 8 else None
+            except Exception:
+                width = None
+        if width is not None:
+            out.append((f.name, (1 << (8 * width)) - 1))
+    return out
+
+
+def field_extremes(classes, rng, to_bytes=bytes, prefix="", fixed=None, **kw):
+    """-> [(label, builder)]: for every class, every numeric field of its layout set to 0, 1 and its largest value
+    (all other fields plausible; `fixed` = {class name: {field: value}} pins fields that make the victim accept
+    the PDU).  Values that bumble's own serialiser refuses are left out (a 6-bit field behind a custom codec:
+    the largest value it can carry is used instead)."""
+    import random as _random
+
+    out = []
+    for c in classes:
+        pinned = (fixed or {}).get(c.__name__, {})
+        for name, top in int_fields(c):
+            def build(v, r, c=c, name=name, pinned=pinned):
+                ov = dict(pinned)
+                ov[name] = v
+                return to_bytes(auto_build(c, r, overrides=ov, **kw))
+
+            def buildable(v, build=build):
+                try:
+                    build(v, _random.Random(0))
+                    return True
+                except Exception:
+                    return False
+
+            values = [(0, "0"), (1, "1")]
+            for t in (top, top >> 1, top >> 2):
+                if buildable(t):
+                    values.append((t, "max"))
+                    break
+            for v, txt in values:
+                if buildable(v):
+                    out.append((f"{prefix}{c.__name__}.{name}={txt}", lambda v=v, build=build: build(v, rng)))
+    return out
 
 
 def _classes(mod, prefix, base=None, skip=()):
@@ -98,6 +177,10 @@ def build_corpus(classes, rng, to_bytes=bytes, per_class=2, **kw):
 
 
 # ----------------------------------------------------------------------------- base
+ENUMERATED = ("extreme", "out_of_phase", "advance")  # classes whose instances are listed, not drawn
+STRUCTURED = ("extreme", "out_of_phase")
+
+
 class Rig:
     name = ""
     fixed = True  # the channel cannot be closed (fixed CID / HCI)
@@ -105,6 +188,7 @@ class Rig:
     classes = mu.GENERIC
     settle = 0.2  # virtual seconds run after each injected unit
     allow_stream = True  # the victim's host may be fed through a PacketParser
+    phased = False  # the reference transaction has several steps: class "advance" = its next in-order step
 
     def __init__(self, rng):
         self.rng = rng
@@ -113,6 +197,14 @@ class Rig:
         self.closed_by_harness = False
         self.ident = 0x20
         self.victim_exceptions = []
+        self.forwarding = False  # the attacking device's own upper layers take part (during the probe only)
+        self.txn_open = False  # a reference transaction started by the injected units has not been abandoned
+        self.adv_step = 0  # in-order steps of the reference transaction made so far
+        self.flavour = None  # which variant of the reference transaction "advance" follows
+        self.last_label = ""
+        self.use_errors = []  # harness failures inside a "use" script
+        self.use_tasks = []
+        self.stage = ""  # the part of the probe that is running (names what failed)
 
     # --- construction
     async def setup(self):
@@ -161,7 +253,7 @@ class Rig:
         mgr.on_pdu = on_pdu
 
     def forward_to_attacker_stack(self, cid):
-        return False
+        return self.forwarding
 
     # --- generic services
     def next_ident(self):
@@ -171,14 +263,62 @@ class Rig:
     def send_raw(self, cid, data):
         self.ac.send_l2cap_pdu(cid, data)
 
+    @property
+    def sig_cid(self):
+        return l2cap.L2CAP_SIGNALING_CID if self.transport == "classic" else l2cap.L2CAP_LE_SIGNALING_CID
+
     def send_unit(self, unit):
         for target, data in unit:
             if target == "chan":
                 self.send_chan(data)
             elif target == "sig":
-                self.send_raw(l2cap.L2CAP_SIGNALING_CID if self.transport == "classic" else l2cap.L2CAP_LE_SIGNALING_CID, data)
+                self.send_raw(self.sig_cid, data)
+            elif target == "use":
+                self.start_use(data)
             else:
                 raise RigError(f"unknown target {target}")
+
+    # --- normal use of what a unit negotiated: a script of well-formed PDUs that follows the victim's answers
+    def start_use(self, data):
+        async def guarded():
+            try:
+                await self.use(bytes(data))
+            except Exception as e:  # the harness' own script failed: machinery, reported by c17_run
+                self.use_errors.append(e)
+
+        self.use_tasks.append(asyncio.get_running_loop().create_task(guarded()))
+
+    async def use(self, data):
+        raise RigError(f"{self.name}: no 'use' script")
+
+    async def until(self, pred, timeout=0.12, step=0.01):
+        """poll inside the watchdog window of the unit (virtual time; a unit is given `settle` seconds)"""
+        t = 0.0
+        while t <= timeout:
+            r = pred()
+            if r:
+                return r
+            await asyncio.sleep(step)
+            t += step
+        return None
+
+    def sig_frames_all(self):
+        return [p for c, p in self.frames if c == self.sig_cid]
+
+    def sig_reply(self, ident, codes):
+        """the victim's signalling reply with this identifier (None while there is none)"""
+        for p in reversed(self.sig_frames_all()):
+            if len(p) >= 4 and p[1] == ident and p[0] in codes:
+                return p
+        return None
+
+    # --- reference transactions of the peer that the injected units may have started
+    def starts_txn(self, unit):
+        """do these bytes contain a well-formed step of the channel's reference transaction (read from the bytes)"""
+        return False
+
+    async def abandon(self):
+        """give up the transaction in progress by the ordinary procedure of the protocol"""
 
     def send_chan(self, data):
         raise NotImplementedError
@@ -229,18 +369,72 @@ class Rig:
                 raise RigError(f"{self.name}: corpus of valid PDUs too small ({len(c)})")
         return self.rng.choice(c)[1]
 
-    def gen(self, cls):
+    def instances(self, cls):
+        """enumerated classes: [(label, builder -> unit, continues)], the same list (same order) for every rig of this
+        channel whatever the connection state: builders are only called by gen()"""
+        cache = self.__dict__.setdefault("_instances", {})
+        if cls not in cache:
+            fn = getattr(self, "inst_" + cls, None)
+            if fn is None:
+                raise RigError(f"{self.name}: no instance list for the enumerated class {cls}")
+            lst = []
+            for item in fn():
+                label, build = item[0], item[1]
+                lst.append((label, build, bool(item[2]) if len(item) > 2 else False))
+            if not lst:
+                raise RigError(f"{self.name}: empty instance list for class {cls}")
+            if len({l for l, _, _ in lst}) != len(lst):
+                raise RigError(f"{self.name}: duplicate instance labels in class {cls}")
+            cache[cls] = lst
+        return cache[cls]
+
+    def gen(self, cls, variant=None):
         """-> unit = list of (target, bytes)"""
-        if cls in mu.GENERIC:
+        self.last_label = ""
+        if cls in mu.GENERIC and cls in self.classes:
             pdu = self.pick()
             return [("chan", mu.generic(cls, self.rng, pdu, self.len_fields(pdu)))]
-        fn = getattr(self, "gen_" + cls, None)
-        if fn is None:
-            raise RigError(f"{self.name}: no generator for fault class {cls}")
-        unit = fn()
+        if cls in ENUMERATED:
+            inst = self.instances(cls)
+            i = self.rng.randrange(len(inst)) if variant is None else variant % len(inst)
+            label, build, _ = inst[i]
+            for attempt in range(30):
+                try:  # (other fields are drawn: a draw bumble's own class refuses is drawn again)
+                    unit = build()
+                    break
+                except RigError:
+                    raise
+                except Exception as e:
+                    err = e
+            else:
+                raise RigError(f"{self.name}: instance {label} of class {cls} cannot be built: {type(err).__name__}: {err}")
+            if cls != "advance":
+                self.last_label = label
+        else:
+            fn = getattr(self, "gen_" + cls, None)
+            if fn is None:
+                raise RigError(f"{self.name}: no generator for fault class {cls}")
+            unit = fn()
         if isinstance(unit, (bytes, bytearray)):
             unit = [("chan", bytes(unit))]
         return unit
+
+    # "advance": the flavours of the reference transaction; which step comes next is the rig's state
+    def inst_advance(self):
+        return [(f, (lambda f=f: self.advance(f))) for f in self.flavours]
+
+    flavours = ("default",)
+
+    def advance(self, flavour):
+        if self.flavour is None:
+            self.flavour = flavour
+        unit = self.advance_step(self.flavour, self.adv_step)
+        self.last_label = f"{self.flavour}:step{self.adv_step}"
+        self.adv_step += 1
+        return unit
+
+    def advance_step(self, flavour, step):
+        raise RigError(f"{self.name}: not a phased channel")
 
 
 def sig_len_fields(pdu):
@@ -250,7 +444,8 @@ def sig_len_fields(pdu):
 # ----------------------------------------------------------------------------- LE fixed channels
 class AttRig(Rig):
     name = "att"
-    classes = mu.GENERIC + ("att_unknown_op", "att_server_pdu")
+    classes = mu.GENERIC + ("att_unknown_op", "att_server_pdu") + STRUCTURED + ("advance",)
+    phased = True  # reference transaction with several steps: a queued write (Prepare Write* / Execute Write)
 
     def prepare_victim(self):
         self.ro = Characteristic(UUID("0000C171-0000-1000-8000-00805F9B34FB"), Characteristic.Properties.READ,
@@ -264,6 +459,8 @@ class AttRig(Rig):
         self.send_raw(att.ATT_CID, data)
 
     def handles(self):
+        if not hasattr(self, "ro"):  # (a rig that is only asked for its instance lists)
+            return (0, 1, 2, 3, 4, 5, 6, 0xFFFF)
         return (0, 1, 2, 3, self.ro.handle, self.rw.handle, self.rw.handle + 1, 0xFFFF)
 
     def corpus(self):
@@ -281,7 +478,92 @@ class AttRig(Rig):
         c = build_corpus(rsp, self.rng, per_class=1, ints=self.handles())
         return self.rng.choice(c)[1]
 
+    def request_classes(self):
+        return [c for c in _classes(att, "ATT_", skip=("ATT_PDU", "ATT_Error")) if not c.__name__.endswith("Response")
+                and "Notification" not in c.__name__ and "Indication" not in c.__name__]
+
+    def server_classes(self):
+        return [c for c in _classes(att, "ATT_", skip=("ATT_PDU", "ATT_Error")) if c.__name__.endswith("Response")
+                or "Notification" in c.__name__ or "Indication" in c.__name__]
+
+    def inst_extreme(self):
+        """every numeric field of every request (handles, offsets, the MTU, flags) at 0 / 1 / max; the normal use of
+        what an Exchange MTU negotiated is the reference transaction itself (read, write, notification)"""
+        out = []
+        for label, build in field_extremes(self.request_classes(), self.rng, ints=self.handles()):
+            out.append((label, build, label.startswith("ATT_Prepare_Write_Request")))
+        return out
+
+    def inst_out_of_phase(self):
+        """PDUs that only a server sends, a confirmation without an indication, Execute Write without a queue"""
+        import random as _random
+
+        out = []
+        for c in self.server_classes():
+            try:
+                auto_build(c, _random.Random(0), ints=self.handles())
+            except Exception:
+                continue  # bumble's own class cannot be built with generic values
+            out.append((c.__name__, lambda c=c: bytes(auto_build(c, self.rng, ints=self.handles()))))
+        out.append(("ATT_Execute_Write_Request:commit:empty_queue", lambda: bytes(att.ATT_Execute_Write_Request(flags=1))))
+        out.append(("ATT_Execute_Write_Request:cancel:empty_queue", lambda: bytes(att.ATT_Execute_Write_Request(flags=0))))
+        return out
+
+    def advance_step(self, flavour, step):
+        # a queued write on the writable characteristic: Prepare Write Request, part by part
+        return bytes(att.ATT_Prepare_Write_Request(attribute_handle=self.rw.handle, value_offset=4 * step, part_attribute_value=mu.rand_bytes(self.rng, 4)))
+
+    def starts_txn(self, unit):
+        return any(t == "chan" and d[:1] == b"\x16" and len(d) >= 5 for t, d in unit)
+
+    async def abandon(self):
+        self.send_chan(bytes(att.ATT_Execute_Write_Request(flags=0)))  # cancel all prepared writes
+        await asyncio.sleep(0.3)
+
     async def att_probe(self, send, received):
+        """the complete use of the bearer: a read AND a write (read back) AND a notification"""
+        self.stage = "read"
+        ok, why = await self.att_read_probe(send, received)
+        if not ok:
+            return ok, why
+        from bumble import gatt
+
+        self.stage = "write"
+        self.n_probe = getattr(self, "n_probe", 0) + 1
+        new = b"C17-w%d" % self.n_probe
+        n0 = len(received())
+        send(bytes(att.ATT_Write_Request(attribute_handle=self.rw.handle, attribute_value=new)))
+        got = await self.wait_for(lambda: [p for p in received()[n0:] if p[:1] in (b"\x13", b"\x01")])
+        if not got or got[0] != b"\x13":
+            return False, f"Write Request(handle={self.rw.handle}) not answered with a Write Response; frames since: {[p.hex() for p in received()[n0:]][:4]}"
+        n0 = len(received())
+        send(bytes(att.ATT_Read_Request(attribute_handle=self.rw.handle)))
+        got = await self.wait_for(lambda: [p for p in received()[n0:] if p[:1] in (b"\x0b", b"\x01")])
+        if not got or got[0] != b"\x0b" + new:
+            return False, f"the value just written ({new!r}) is not what a Read Request returns: {[p.hex() for p in received()[n0:]][:4]}"
+        self.stage = "notification"
+        cccd = self.victim.gatt_server.get_descriptor_attribute(UUID("0000C170-0000-1000-8000-00805F9B34FB"), self.rw.uuid,
+                                                                gatt.GATT_CLIENT_CHARACTERISTIC_CONFIGURATION_DESCRIPTOR)
+        if cccd is None:
+            raise RigError("att: the server has no CCCD for the notifying characteristic")
+        n0 = len(received())
+        send(bytes(att.ATT_Write_Request(attribute_handle=cccd.handle, attribute_value=b"\x01\x00")))
+        got = await self.wait_for(lambda: [p for p in received()[n0:] if p[:1] in (b"\x13", b"\x01")])
+        if not got or got[0] != b"\x13":
+            return False, f"subscribing (Write Request to the CCCD, handle {cccd.handle}) not answered with a Write Response: {[p.hex() for p in received()[n0:]][:4]}"
+        n0 = len(received())
+        note = b"C17-n%d" % self.n_probe
+        try:
+            await asyncio.wait_for(self.victim.notify_subscribers(self.rw, value=note), 10)
+        except Exception as e:
+            return False, f"the victim application's notify_subscribers() ended with {type(e).__name__}: {e}"
+        want = b"\x1b" + struct.pack("<H", self.rw.handle) + note
+        got = await self.wait_for(lambda: [p for p in received()[n0:] if p[:1] == b"\x1b"])
+        if not got or got[0] != want:
+            return False, f"the subscribed peer did not receive the notification {want.hex()}; frames since: {[p.hex() for p in received()[n0:]][:4]}"
+        return True, ""
+
+    async def att_read_probe(self, send, received):
         n0 = len(received())
         send(bytes(att.ATT_Read_Request(attribute_handle=self.ro.handle)))
         got = await self.wait_for(lambda: [p for p in received()[n0:] if p[:1] == bytes([0x0B])])
@@ -299,12 +581,33 @@ class AttRig(Rig):
         return await self.att_probe(self.send_chan, lambda: [p for c, p in self.frames if c == att.ATT_CID])
 
 
+SMP_SIZES = {0x01: 6, 0x02: 6, 0x03: 16, 0x04: 16, 0x05: 1, 0x06: 16, 0x07: 10, 0x08: 16, 0x09: 7, 0x0A: 16, 0x0B: 1, 0x0C: 64,
+             0x0D: 16, 0x0E: 1}
+SMP_NAMES = {0x01: "pairing_request", 0x02: "pairing_response", 0x03: "pairing_confirm", 0x04: "pairing_random", 0x05: "pairing_failed",
+             0x06: "encryption_information", 0x07: "master_identification", 0x08: "identity_information",
+             0x09: "identity_address_information", 0x0A: "signing_information", 0x0B: "security_request", 0x0C: "public_key",
+             0x0D: "dhkey_check", 0x0E: "keypress_notification"}
+
+
 class SmpRig(Rig):
     name = "smp"
-    classes = mu.GENERIC + ("smp_unknown_code", "smp_out_of_order")
+    classes = mu.GENERIC + ("smp_unknown_code", "smp_out_of_order") + STRUCTURED + ("advance",)
+    phased = True
+    flavours = ("legacy", "sc")
+
+    def prepare_victim(self):
+        from bumble.pairing import PairingConfig
+
+        self.attacker_sc = True
+        self.victim.pairing_config_factory = lambda connection: PairingConfig(sc=True, mitm=False, bonding=True)
+        self.attacker.pairing_config_factory = lambda connection: PairingConfig(sc=self.attacker_sc, mitm=False, bonding=True)
+        self.preq = None
 
     def send_chan(self, data):
         self.send_raw(smp.SMP_CID, data)
+
+    def smp_rx(self):
+        return [p for c, p in self.frames if c == smp.SMP_CID]
 
     def corpus(self):
         return build_corpus(_classes(smp, "SMP_", skip=("SMP_Command",)), self.rng, per_class=2, ints=(0, 1, 3, 4, 7, 16))
@@ -325,26 +628,159 @@ class SmpRig(Rig):
                                                    initiator_key_distribution=7, responder_key_distribution=7)),
         ])
 
-    async def probe(self):
-        # a peer may always abandon a pairing (Pairing Failed) and start a new one: the new Pairing Request must be
-        # answered (Pairing Response, or Pairing Failed e.g. "repeated attempts": the property leaves that free)
-        rx = lambda: [p for c, p in self.frames if c == smp.SMP_CID]
+    # --- the reference transaction, step by step (the attacking side is the initiator, raw PDUs)
+    def pairing_request(self, sc, **kw):
+        f = dict(io_capability=3, oob_data_flag=0, auth_req=0x09 if sc else 0x01, maximum_encryption_key_size=16,
+                 initiator_key_distribution=1, responder_key_distribution=1)
+        f.update(kw)
+        return bytes(smp.SMP_Pairing_Request_Command(**f))
+
+    def note_request(self, pdu, flavour=None):
+        """a Pairing Request is going out: the steps that follow continue this pairing"""
+        self.preq = bytes(pdu)
+        self.flavour = flavour or ("sc" if len(pdu) > 3 and pdu[3] & 0x08 else "legacy")
+        self.adv_step = 1
+        self.n_rx0 = len(self.smp_rx()) if self.net else 0
+
+    def advance_step(self, flavour, step):
+        from bumble import crypto
+
+        r = self.rng
+        if step == 0:
+            pdu = self.pairing_request(flavour == "sc")
+            self.note_request(pdu, flavour)
+            self.adv_step = 0  # (advance() counts)
+            return pdu
+        since = self.smp_rx()[getattr(self, "n_rx0", 0):]
+        if flavour == "legacy":
+            if step == 1:
+                # Pairing Confirm: c1 over the request, the victim's Pairing Response and the addresses (TK = 0)
+                pres = next((p for p in since if p[:1] == b"\x02" and len(p) == 7), None)
+                self.legacy_r = mu.rand_bytes(r, 16)
+                confirm = mu.rand_bytes(r, 16)
+                if pres is not None and self.preq:
+                    ia = self.ac.self_resolvable_address or self.ac.self_address
+                    ra = self.ac.peer_resolvable_address or self.ac.peer_address
+                    confirm = crypto.c1(bytes(16), self.legacy_r, self.preq, pres, 1 if ia.is_random else 0, 1 if ra.is_random else 0,
+                                        bytes(ia), bytes(ra))
+                return bytes(smp.SMP_Pairing_Confirm_Command(confirm_value=confirm))
+            if step == 2:
+                return bytes(smp.SMP_Pairing_Random_Command(random_value=getattr(self, "legacy_r", None) or mu.rand_bytes(r, 16)))
+            return bytes(smp.SMP_Encryption_Information_Command(long_term_key=mu.rand_bytes(r, 16)))
+        if step == 1:
+            self.ecc = crypto.EccKey.generate()
+            return bytes(smp.SMP_Pairing_Public_Key_Command(public_key_x=self.ecc.x[::-1], public_key_y=self.ecc.y[::-1]))
+        if step == 2:
+            return bytes(smp.SMP_Pairing_Random_Command(random_value=mu.rand_bytes(r, 16)))
+        return bytes(smp.SMP_Pairing_DHKey_Check_Command(dhkey_check=mu.rand_bytes(r, 16)))
+
+    def starts_txn(self, unit):
+        return any(t == "chan" and d[:1] == b"\x01" and len(d) >= 7 for t, d in unit)
+
+    async def abandon(self):
         self.send_chan(bytes(smp.SMP_Pairing_Failed_Command(reason=smp.ErrorCode.UNSPECIFIED_REASON)))
         await asyncio.sleep(0.5)
-        n0 = len(rx())
-        self.send_chan(bytes(smp.SMP_Pairing_Request_Command(io_capability=3, oob_data_flag=0, auth_req=1, maximum_encryption_key_size=16,
-                                                             initiator_key_distribution=0, responder_key_distribution=0)))
-        got = await self.wait_for(lambda: [p for p in rx()[n0:] if p[:1] in (b"\x02", b"\x05")])
-        if not got:
-            return False, f"Pairing Request not answered (no Pairing Response / Pairing Failed); frames since: {[p.hex() for p in rx()[n0:]][:4]}"
-        if got[0][0] == 2 and len(got[0]) != 7:
-            return False, f"malformed Pairing Response {got[0].hex()}"
+
+    # --- enumerated classes
+    def inst_out_of_phase(self):
+        """every command code of the protocol with its payload size: all zero / random; a point of the curve"""
+        from bumble import crypto
+
+        out = []
+        for code, n in SMP_SIZES.items():
+            if code == 0x01:
+                out.append(("pairing_request:legacy", lambda: self._req(False), True))
+                out.append(("pairing_request:sc", lambda: self._req(True), True))
+                continue
+            out.append((f"{SMP_NAMES[code]}:zeros", lambda code=code, n=n: bytes([code]) + bytes(n)))
+            out.append((f"{SMP_NAMES[code]}:random", lambda code=code, n=n: bytes([code]) + mu.rand_bytes(self.rng, n)))
+        def point():
+            k = crypto.EccKey.generate()
+            return bytes(smp.SMP_Pairing_Public_Key_Command(public_key_x=k.x[::-1], public_key_y=k.y[::-1]))
+
+        out.append(("public_key:on_curve", point))
+        return out
+
+    def _req(self, sc, **kw):
+        pdu = self.pairing_request(sc, **kw)
+        self.note_request(pdu)
+        return pdu
+
+    def inst_extreme(self):
+        out = []
+        for fl, auth in (("legacy", 0x01), ("sc", 0x09)):
+            pinned = {"SMP_Pairing_Request_Command": dict(io_capability=3, oob_data_flag=0, auth_req=auth, maximum_encryption_key_size=16,
+                                                          initiator_key_distribution=1, responder_key_distribution=1)}
+            for label, build in field_extremes([smp.SMP_Pairing_Request_Command], self.rng, prefix=fl + ":", fixed=pinned):
+                def b(build=build):
+                    pdu = build()
+                    self.note_request(pdu)
+                    return pdu
+
+                out.append((label, b, True))
+        others = [c for c in _classes(smp, "SMP_", skip=("SMP_Command", "SMP_Pairing_Request_Command"))]
+        out += field_extremes(others, self.rng, ints=(0, 1, 3, 4, 7, 16))
+        return out
+
+    # --- probe: the complete transaction, twice: a legacy pairing and a Secure Connections pairing, each run to its
+    # end (keys on both sides) by the attacking device's own Security Manager on the same connection
+    async def pair_once(self, sc):
+        self.attacker_sc = sc
+        what = "Secure Connections" if sc else "legacy"
+        vkeys, akeys, vfail = [], [], []
+        on_v = lambda keys: vkeys.append(keys)
+        on_a = lambda keys: akeys.append(keys)
+        on_f = lambda reason: vfail.append(reason)
+        self.vc.on("pairing", on_v)
+        self.ac.on("pairing", on_a)
+        self.vc.on("pairing_failure", on_f)
+        n0 = len(self.smp_rx())
+        try:
+            try:
+                await asyncio.wait_for(self.ac.pair(), 45)
+            except asyncio.TimeoutError:
+                return False, (f"a {what} pairing started by the peer on the same connection never completes (pair() still waiting after 45 s; "
+                               f"victim sent {[p.hex()[:16] for p in self.smp_rx()[n0:]][:6]})")
+            except Exception as e:
+                return False, f"a {what} pairing started by the peer on the same connection failed: {type(e).__name__}: {e}"
+            await self.wait_for(lambda: vkeys or vfail, timeout=5.0)
+        finally:
+            self.vc.remove_listener("pairing", on_v)
+            self.ac.remove_listener("pairing", on_a)
+            self.vc.remove_listener("pairing_failure", on_f)
+        has = lambda k: any(getattr(k, n, None) is not None for n in ("ltk", "ltk_central", "ltk_peripheral"))
+        if not vkeys or not has(vkeys[0]):
+            return False, f"after the {what} pairing the victim reported no keys (pairing event missing{', pairing_failure ' + str(vfail[0]) if vfail else ''})"
+        if not akeys or not has(akeys[0]):
+            return False, f"after the {what} pairing the initiator has no keys"
+        if sc and vkeys[0].ltk is not None and akeys[0].ltk is not None and vkeys[0].ltk.value != akeys[0].ltk.value:
+            return False, "the two sides hold different LTKs after the Secure Connections pairing"
         return True, ""
+
+    async def probe(self):
+        self.forwarding = True
+        order = (False, True) if self.rng.random() < 0.5 else (True, False)
+        for i, sc in enumerate(order):
+            self.stage = ("first-pairing", "second-pairing")[i]
+            ok, why = await self.pair_once(sc)
+            if not ok:
+                return False, why
+            await asyncio.sleep(0.5)
+        return True, ""
+
+
+LE_SERVER_PSM = 0x0085  # an LE credit based server / a classic server of the victim, with an echoing application, that
+CL_SERVER_PSM = 0x1003  # only the well-formed classes (extreme, advance) and the probe address
+
+# the configuration options of an L2CAP Configuration Request (Vol 3, Part A, 5): name, option type, format, fields
+CONFIG_LAYOUT = (("mtu", 0x01, "<H", ("mtu",)), ("flush_timeout", 0x02, "<H", ("flush_timeout",)), ("fcs", 0x05, "<B", ("fcs",)),
+                 ("rfc", 0x04, "<BBBHHH", ("mode", "tx_window", "max_transmit", "retransmission_timeout", "monitor_timeout", "mps")))
 
 
 class SigRig(Rig):
     """signalling channel of the link (fixed CID 1 / 5)"""
-    classes = mu.GENERIC + ("sig_unknown_code", "sig_multi", "sig_unsolicited_rsp")
+    classes = mu.GENERIC + ("sig_unknown_code", "sig_multi", "sig_unsolicited_rsp") + STRUCTURED
+    settle = 0.3
 
     @property
     def cid(self):
@@ -356,9 +792,11 @@ class SigRig(Rig):
     def len_fields(self, pdu):
         return sig_len_fields(pdu)
 
+    def frame_classes(self):
+        return _classes(l2cap, "L2CAP_", base=l2cap.L2CAP_Control_Frame)
+
     def corpus(self):
-        cl = _classes(l2cap, "L2CAP_", base=l2cap.L2CAP_Control_Frame)
-        return build_corpus(cl, self.rng, per_class=2, ints=(0, 1, 2, 0x40, 0x41, 0x80, 0xF1, 23, 0xFFFF))
+        return build_corpus(self.frame_classes(), self.rng, per_class=2, ints=(0, 1, 2, 0x40, 0x41, 0x80, 0xF1, 23, 0xFFFF))
 
     def gen_sig_unknown_code(self):
         code = self.rng.choice([0x00, 0x0C, 0x0D, 0x0E, 0x0F, 0x10, 0x11, 0x1B, 0x30, 0x7F, 0xFF])
@@ -369,19 +807,119 @@ class SigRig(Rig):
         # several commands packed in one C-frame (legal on BR/EDR, not on LE)
         return b"".join(self.pick() for _ in range(self.rng.randint(2, 4)))
 
+    def response_classes(self):
+        return [c for c in self.frame_classes() if c.__name__.endswith("Response") or c.__name__ in ("L2CAP_Command_Reject", "L2CAP_LE_Flow_Control_Credit")]
+
     def gen_sig_unsolicited_rsp(self):
-        rsp = [c for c in _classes(l2cap, "L2CAP_", base=l2cap.L2CAP_Control_Frame) if c.__name__.endswith("Response")
-               or c.__name__ in ("L2CAP_Command_Reject", "L2CAP_LE_Flow_Control_Credit")]
-        return self.rng.choice(build_corpus(rsp, self.rng, per_class=1, ints=(0, 1, 0x40, 0x41, 0xFFFF)))[1]
+        return self.rng.choice(build_corpus(self.response_classes(), self.rng, per_class=1, ints=(0, 1, 0x40, 0x41, 0xFFFF)))[1]
 
     def sig_frames(self):
         return [p for c, p in self.frames if c == self.cid]
+
+    def next_scid(self):
+        """source CIDs of channels opened with raw PDUs: away from the ones the attacking device's own stack allocates"""
+        self.scid = getattr(self, "scid", 0x005F) + 1
+        if self.scid > 0x007E:
+            self.scid = 0x0060
+        return self.scid
+
+    def inst_out_of_phase(self):
+        """every response of the protocol without a request; requests that name channels that do not exist"""
+        import random as _random
+
+        out = []
+        ints = (0, 1, 0x40, 0x41, 0x70, 0xFFFF)
+        for c in self.response_classes():
+            try:
+                auto_build(c, _random.Random(0), ints=ints)
+            except Exception:
+                continue
+            out.append((c.__name__, lambda c=c: bytes(auto_build(c, self.rng, ints=ints))))
+        out.append(("L2CAP_Configure_Request:unknown_channel", lambda: bytes(l2cap.L2CAP_Configure_Request(
+            identifier=self.next_ident(), destination_cid=0x0077, flags=0, options=b"\x01\x02\x30\x00"))))
+        out.append(("L2CAP_Disconnection_Request:unknown_channel", lambda: bytes(l2cap.L2CAP_Disconnection_Request(
+            identifier=self.next_ident(), destination_cid=0x0077, source_cid=0x0078))))
+        out.append(("L2CAP_Credit_Based_Reconfigure_Request:unknown_channel", lambda: bytes(l2cap.L2CAP_Credit_Based_Reconfigure_Request(
+            identifier=self.next_ident(), mtu=64, mps=64, destination_cid=[0x0077]))))
+        return out
+
+    def pinned(self):
+        return {}
+
+    def accepted(self, label):
+        """does this instance open a channel on the victim's server (then: normal use of it)"""
+        return None
+
+    def inst_extreme(self):
+        """every numeric field of every signalling command at 0 / 1 / max; a request the victim's server accepts is followed
+        by normal use of the channel it opens (data both ways, credits)"""
+        out = []
+        requests = [c for c in self.frame_classes() if not c.__name__.endswith("Response") and c.__name__ != "L2CAP_Command_Reject"]
+        for label, build in field_extremes(requests, self.rng, fixed=self.pinned(), ints=(0, 1, 2, 0x50, 0x51, 0x80, 23)):
+            kind = self.accepted(label)
+            if kind:
+                out.append((label, lambda build=build, kind=kind, label=label: self.open_and_use(self.own_scid(build(), label), kind), self.phased))
+            else:
+                out.append((label, build))
+        return out
+
+    def own_scid(self, request, label):
+        """the source CID of a channel opened with raw PDUs is one the attacking device's own stack does not allocate
+        (unless it is the field under test)"""
+        if ".source_cid=" in label or len(request) < 8:
+            return request
+        return request[:6] + struct.pack("<H", self.next_scid()) + request[8:]
+
+    def open_and_use(self, request, kind, options=b""):
+        # the request carries the identifier and the source CID the 'use' script needs
+        return [("chan", request), ("use", kind + request[1:2] + options)]
 
 
 class LeSigRig(SigRig):
     name = "le_sig"
 
+    def prepare_victim(self):
+        self.victim_channels = []
+
+        def on_channel(ch):
+            self.victim_channels.append(ch)
+            ch.sink = lambda sdu: ch.write(b"echo:" + sdu)
+
+        self.victim.create_l2cap_server(l2cap.LeCreditBasedChannelSpec(psm=LE_SERVER_PSM, mtu=256, mps=64, max_credits=32), on_channel)
+
+    def pinned(self):
+        return {"L2CAP_LE_Credit_Based_Connection_Request": dict(le_psm=LE_SERVER_PSM, mtu=64, mps=32, initial_credits=3)}
+
+    def accepted(self, label):
+        return b"L" if label.startswith("L2CAP_LE_Credit_Based_Connection_Request.") and ".le_psm=" not in label else None
+
+    async def use(self, data):
+        """normal use of an LE credit based channel just negotiated: an SDU to the victim (within its MTU / MPS / credits), credits for
+        the victim the ordinary way, another SDU; the victim application echoes each, i.e. transmits under OUR MTU / MPS / credits"""
+        ident = data[1]
+        req = next((p for t, p in reversed(self.sent_sig) if len(p) >= 14 and p[0] == 0x14 and p[1] == ident), None)
+        rsp = await self.until(lambda: self.sig_reply(ident, (0x15, 0x01)))
+        if req is None or rsp is None or rsp[0] != 0x15 or len(rsp) < 14:
+            return
+        dcid, vmtu, vmps, vcredits, result = struct.unpack_from("<HHHHH", rsp, 4)
+        if result != 0:
+            return  # refused: the victim is free to
+        scid = struct.unpack_from("<H", req, 6)[0]
+        sdu = b"C17-use"[: max(0, min(vmtu, vmps - 2))]
+        if vcredits > 0:
+            self.send_raw(dcid, struct.pack("<H", len(sdu)) + sdu)
+        await asyncio.sleep(0.03)
+        self.send_chan(bytes(l2cap.L2CAP_LE_Flow_Control_Credit(identifier=self.next_ident(), cid=scid, credits=4)))
+        await asyncio.sleep(0.03)
+        if vcredits > 1:
+            self.send_raw(dcid, struct.pack("<H", len(sdu)) + sdu)
+
+    def send_chan(self, data):
+        self.__dict__.setdefault("sent_sig", []).append(("chan", bytes(data)))
+        super().send_chan(data)
+
     async def probe(self):
+        self.stage = "unknown-spsm"
         ident = self.next_ident()
         n0 = len(self.sig_frames())
         req = l2cap.L2CAP_LE_Credit_Based_Connection_Request(identifier=ident, le_psm=0x00F1, source_cid=0x0070, mtu=64, mps=64, initial_credits=1)
@@ -393,14 +931,130 @@ class LeSigRig(SigRig):
         # unknown SPSM: response 0x15 with result 0x0002 (SPSM not supported)
         if p[0] != 0x15 or len(p) != 14 or struct.unpack_from("<H", p, 12)[0] != 0x0002:
             return False, f"reply to a request for an unregistered SPSM is {p.hex()}, expected LE Credit Based Connection Response with result 0x0002"
+        # the complete transaction: a channel opened by the attacking device's own stack on the victim's server, SDUs larger
+        # than the MPS both ways, the channel closed
+        self.stage = "open-channel"
+        self.forwarding = True
+        try:
+            ch = await asyncio.wait_for(self.ac.create_l2cap_channel(l2cap.LeCreditBasedChannelSpec(psm=LE_SERVER_PSM, mtu=256, mps=64, max_credits=32)), 20)
+        except Exception as e:
+            return False, f"an LE credit based channel could not be opened on the victim's server: {type(e).__name__}: {e}"
+        self.stage = "channel-data"
+        sdus = []
+        ch.sink = lambda sdu: sdus.append(bytes(sdu))
+        payload = b"C17-" + bytes(range(200))
+        ch.write(payload)
+        await self.wait_for(lambda: sdus, timeout=10)
+        if sdus[:1] != [b"echo:" + payload]:
+            return False, f"a {len(payload)}-byte SDU written on the new channel was not echoed correctly by the victim application: {[x[:16] for x in sdus[:2]]}"
+        self.stage = "close-channel"
+        try:
+            await asyncio.wait_for(ch.disconnect(), 20)
+        except Exception as e:
+            return False, f"the new channel could not be closed: {type(e).__name__}: {e}"
         return True, ""
 
 
 class ClassicSigRig(SigRig):
     name = "classic_sig"
     transport = "classic"
+    classes = SigRig.classes + ("advance",)
+    phased = True
+
+    def prepare_victim(self):
+        self.victim_channels = []
+
+        def on_channel(ch):
+            self.victim_channels.append(ch)
+            ch.sink = lambda sdu: ch.write(b"echo:" + sdu)
+
+        self.victim.create_l2cap_server(l2cap.ClassicChannelSpec(psm=CL_SERVER_PSM), on_channel)
+
+    def send_chan(self, data):
+        self.__dict__.setdefault("sent_sig", []).append(("chan", bytes(data)))
+        super().send_chan(data)
+
+    def pinned(self):
+        return {"L2CAP_Connection_Request": dict(psm=CL_SERVER_PSM)}
+
+    def accepted(self, label):
+        return b"C" if label.startswith("L2CAP_Connection_Request.") and ".psm=" not in label else None
+
+    def connection_request(self):
+        return bytes(l2cap.L2CAP_Connection_Request(identifier=self.next_ident(), psm=CL_SERVER_PSM, source_cid=self.next_scid()))
+
+    def inst_extreme(self):
+        out = super().inst_extreme()
+        # every field of every configuration option of a Configuration Request for a channel just opened, then the channel is used
+        for name, otype, fmt, fields in CONFIG_LAYOUT:
+            sizes = struct.Struct(fmt)
+            for k, f in enumerate(fields):
+                top = (1 << (8 * struct.calcsize("<" + fmt[1 + k]))) - 1
+                for v, txt in ((0, "0"), (1, "1"), (top, "max")):
+                    def build(otype=otype, sizes=sizes, k=k, v=v, fields=fields):
+                        vals = [0] * len(fields)
+                        if len(fields) > 1:
+                            vals = [0, 1, 1, 2000, 12000, 64]  # basic mode, plausible values elsewhere
+                        vals[k] = v
+                        opt = sizes.pack(*vals)
+                        return self.open_and_use(self.connection_request(), b"C", bytes([otype, len(opt)]) + opt)
+
+                    out.append((f"Configure.{name}.{f}={txt}", build, True))
+        return out
+
+    def conn_response(self, ident):
+        rsp = self.sig_reply(ident, (0x03,))
+        if rsp is None or len(rsp) < 12:
+            return None
+        dcid, scid, result, status = struct.unpack_from("<HHHH", rsp, 4)
+        return (dcid, scid) if result == 0 else None
+
+    async def use(self, data):
+        """normal use of a channel just requested: configure it both ways (our Configuration Request carries the options under
+        test, the victim's is accepted), send data, let the victim application echo it"""
+        ident, opts = data[1], data[2:] or b"\x01\x02\x00\x04"
+        got = await self.until(lambda: self.conn_response(ident))
+        if not got:
+            return
+        dcid, scid = got
+        cfg_ident = self.next_ident()
+        self.send_chan(bytes(l2cap.L2CAP_Configure_Request(identifier=cfg_ident, destination_cid=dcid, flags=0, options=opts)))
+        vreq = await self.until(lambda: next((p for p in self.sig_frames_all() if len(p) >= 8 and p[0] == 0x04 and struct.unpack_from("<H", p, 4)[0] == scid), None))
+        if vreq:
+            self.send_chan(bytes(l2cap.L2CAP_Configure_Response(identifier=vreq[1], source_cid=dcid, flags=0, result=0, options=b"")))
+        await self.until(lambda: self.sig_reply(cfg_ident, (0x05, 0x01)))
+        self.send_raw(dcid, b"C17-use-1")
+        await asyncio.sleep(0.03)
+        self.send_raw(dcid, b"C17-use-2" * 8)
+
+    def advance_step(self, flavour, step):
+        if step == 0:
+            pdu = self.connection_request()
+            self.adv_ident = pdu[1]
+            return pdu
+        got = self.conn_response(getattr(self, "adv_ident", 0))
+        dcid, scid = got if got else (0x0077, getattr(self, "scid", 0x0060))
+        if step == 1:
+            return bytes(l2cap.L2CAP_Configure_Request(identifier=self.next_ident(), destination_cid=dcid, flags=0, options=b"\x01\x02\x00\x04"))
+        if step == 2:
+            vreq = next((p for p in self.sig_frames_all() if len(p) >= 8 and p[0] == 0x04 and struct.unpack_from("<H", p, 4)[0] == scid), None)
+            return bytes(l2cap.L2CAP_Configure_Response(identifier=vreq[1] if vreq else self.next_ident(), source_cid=dcid, flags=0, result=0, options=b""))
+        return [("sig", bytes(l2cap.L2CAP_Echo_Request(identifier=self.next_ident(), data=b"C17-step")))]
+
+    def starts_txn(self, unit):
+        return any(t in ("chan", "sig") and len(d) >= 8 and d[0] == 0x02 and struct.unpack_from("<H", d, 4)[0] == CL_SERVER_PSM for t, d in unit)
+
+    async def abandon(self):
+        # close every channel the injected units opened on the victim's server: Disconnection Request, the ordinary way
+        for p in list(self.sig_frames_all()):
+            if len(p) >= 12 and p[0] == 0x03 and struct.unpack_from("<H", p, 8)[0] == 0:
+                dcid, scid = struct.unpack_from("<HH", p, 4)
+                if 0x0060 <= scid <= 0x007E:
+                    self.send_chan(bytes(l2cap.L2CAP_Disconnection_Request(identifier=self.next_ident(), destination_cid=dcid, source_cid=scid)))
+        await asyncio.sleep(0.3)
 
     async def probe(self):
+        self.stage = "echo"
         ident = self.next_ident()
         n0 = len(self.sig_frames())
         data = b"C17-echo"
@@ -411,6 +1065,27 @@ class ClassicSigRig(SigRig):
             return False, f"Echo Request (id {ident}) got no Echo Response; frames since: {[p.hex() for p in self.sig_frames()[n0:]][:4]}"
         if got[0] != want:
             return False, f"Echo Response {got[0].hex()} != {want.hex()}"
+        # the complete transaction: a channel opened (connection + configuration both ways) by the attacking device's own
+        # stack on the victim's server, data both ways, the channel closed
+        self.stage = "open-channel"
+        self.forwarding = True
+        try:
+            ch = await asyncio.wait_for(self.ac.create_l2cap_channel(l2cap.ClassicChannelSpec(psm=CL_SERVER_PSM)), 20)
+        except Exception as e:
+            return False, f"an L2CAP channel could not be opened on the victim's server: {type(e).__name__}: {e}"
+        self.stage = "channel-data"
+        rx = []
+        ch.sink = lambda sdu: rx.append(bytes(sdu))
+        payload = b"C17-" + bytes(range(200))
+        ch.write(payload)
+        await self.wait_for(lambda: rx, timeout=10)
+        if rx[:1] != [b"echo:" + payload]:
+            return False, f"{len(payload)} bytes written on the new channel were not echoed correctly by the victim application: {[x[:16] for x in rx[:2]]}"
+        self.stage = "close-channel"
+        try:
+            await asyncio.wait_for(ch.disconnect(), 20)
+        except Exception as e:
+            return False, f"the new channel could not be closed: {type(e).__name__}: {e}"
         return True, ""
 
 
@@ -466,16 +1141,63 @@ class DynRig(Rig):
 class SdpRig(DynRig):
     name = "sdp"
     psm = sdp.SDP_PSM
-    classes = DynRig.classes + ("sdp_nest_deep", "sdp_size_lie", "sdp_bad_continuation")
+    classes = DynRig.classes + ("sdp_nest_deep", "sdp_size_lie", "sdp_bad_continuation") + STRUCTURED
+
+    def record(self):
+        return [
+            (sdp.SDP_SERVICE_RECORD_HANDLE_ATTRIBUTE_ID, sdp.DataElement.unsigned_integer_32(SDP_HANDLE)),
+            (sdp.SDP_SERVICE_CLASS_ID_LIST_ATTRIBUTE_ID, sdp.DataElement.sequence([sdp.DataElement.uuid(SDP_UUID)])),
+            (sdp.SDP_BROWSE_GROUP_LIST_ATTRIBUTE_ID, sdp.DataElement.sequence([sdp.DataElement.uuid(sdp.SDP_PUBLIC_BROWSE_ROOT)])),
+            (0x0100, sdp.DataElement.text_string(b"C17 reference service with a name long enough to need a continuation")),
+        ]
 
     def prepare_victim(self):
-        self.victim.sdp_server.service_records.update({
-            SDP_HANDLE: [
-                sdp.ServiceAttribute(sdp.SDP_SERVICE_RECORD_HANDLE_ATTRIBUTE_ID, sdp.DataElement.unsigned_integer_32(SDP_HANDLE)),
-                sdp.ServiceAttribute(sdp.SDP_BROWSE_GROUP_LIST_ATTRIBUTE_ID, sdp.DataElement.sequence([sdp.DataElement.uuid(sdp.SDP_PUBLIC_BROWSE_ROOT)])),
-                sdp.ServiceAttribute(sdp.SDP_SERVICE_CLASS_ID_LIST_ATTRIBUTE_ID, sdp.DataElement.sequence([sdp.DataElement.uuid(SDP_UUID)])),
-            ]
-        })
+        self.victim.sdp_server.service_records.update({SDP_HANDLE: [sdp.ServiceAttribute(i, v) for i, v in self.record()]})
+
+    def request_classes(self):
+        return [c for c in _classes(sdp, "SDP_", skip=("SDP_PDU",)) if c.__name__.endswith("Request")]
+
+    def inst_extreme(self):
+        """every numeric field of every request (record counts, byte counts, record handle) at 0 / 1 / max in a request that
+        matches the victim's record; the length byte of the continuation state"""
+        pattern = sdp.DataElement.sequence([sdp.DataElement.uuid(SDP_UUID)])
+        ids = sdp.DataElement.sequence([sdp.DataElement.unsigned_integer_32(0x0000FFFF)])
+        pinned = {
+            "SDP_ServiceSearchRequest": dict(service_search_pattern=pattern, maximum_service_record_count=10, continuation_state=b"\x00"),
+            "SDP_ServiceAttributeRequest": dict(service_record_handle=SDP_HANDLE, maximum_attribute_byte_count=100, attribute_id_list=ids,
+                                                continuation_state=b"\x00"),
+            "SDP_ServiceSearchAttributeRequest": dict(service_search_pattern=pattern, maximum_attribute_byte_count=100, attribute_id_list=ids,
+                                                      continuation_state=b"\x00"),
+        }
+        out = field_extremes(self.request_classes(), self.rng, fixed=pinned)
+        for n, t in ((0, "0"), (1, "1"), (16, "max")):
+            def build(n=n):
+                params = bytes(pattern) + struct.pack(">H", 100) + bytes(ids) + bytes([n]) + mu.rand_bytes(self.rng, n)
+                return b"\x06" + struct.pack(">HH", self.rng.randint(1, 0xFFF0), len(params)) + params
+
+            out.append((f"continuation_state.length={t}", build))
+        return out
+
+    def inst_out_of_phase(self):
+        """PDUs only a server sends; a continuation of a response that was never started"""
+        import random as _random
+
+        out = []
+        for c in _classes(sdp, "SDP_", skip=("SDP_PDU",)):
+            if c.__name__.endswith("Request"):
+                continue
+            try:
+                auto_build(c, _random.Random(0), ints=(0, 1, 10, SDP_HANDLE, 0xFFFF), size=1)
+            except Exception:
+                continue
+            out.append((c.__name__, lambda c=c: bytes(auto_build(c, self.rng, ints=(0, 1, 10, SDP_HANDLE, 0xFFFF), size=1))))
+        pattern = bytes(sdp.DataElement.sequence([sdp.DataElement.uuid(SDP_UUID)]))
+        def cont():
+            params = pattern + struct.pack(">H", 10) + b"\x02\x00\x01"
+            return b"\x02" + struct.pack(">HH", 1, len(params)) + params
+
+        out.append(("continuation_without_previous_response", cont))
+        return out
 
     def len_fields(self, pdu):
         return ((3, 2, "big"),)
@@ -505,6 +1227,7 @@ class SdpRig(DynRig):
         return b"\x02" + struct.pack(">HH", 1, len(params)) + params
 
     async def probe(self):
+        self.stage = "search"
         tid = self.rng.randint(1, 0xFFF0)
         n0 = len(self.rx)
         req = sdp.SDP_ServiceSearchRequest(transaction_id=tid, service_search_pattern=sdp.DataElement.sequence([sdp.DataElement.uuid(SDP_UUID)]),
@@ -517,6 +1240,34 @@ class SdpRig(DynRig):
         want = b"\x03" + struct.pack(">HH", tid, 9) + struct.pack(">HHI", 1, 1, SDP_HANDLE) + b"\x00"
         if p != want:
             return False, f"ServiceSearchResponse {p.hex()} != {want.hex()}"
+        # the complete transaction: all attributes of the record, in as many continuation steps as the small byte count needs
+        self.stage = "search-attributes"
+        pattern = sdp.DataElement.sequence([sdp.DataElement.uuid(SDP_UUID)])
+        ids = sdp.DataElement.sequence([sdp.DataElement.unsigned_integer_32(0x0000FFFF)])
+        cont, data = b"\x00", b""
+        for step in range(40):
+            tid = (tid + 1) & 0xFFFF
+            n0 = len(self.rx)
+            params = bytes(pattern) + struct.pack(">H", 24) + bytes(ids) + cont
+            self.send_chan(b"\x06" + struct.pack(">HH", tid, len(params)) + params)
+            got = await self.wait_for(lambda: [p for p in self.rx[n0:] if len(p) >= 5 and struct.unpack_from(">H", p, 1)[0] == tid])
+            if not got:
+                return False, f"ServiceSearchAttributeRequest (step {step}, continuation {cont.hex()}) not answered; frames since: {[p.hex() for p in self.rx[n0:]][:4]}"
+            p = got[0]
+            if p[0] != 0x07 or len(p) < 8:
+                return False, f"ServiceSearchAttributeRequest (step {step}) answered with {p.hex()}"
+            n = struct.unpack_from(">H", p, 5)[0]
+            if n > 24 or len(p) < 7 + n + 1:
+                return False, f"ServiceSearchAttributeResponse (step {step}) carries {n} bytes (24 allowed) in {p.hex()}"
+            data += p[7 : 7 + n]
+            cont = p[7 + n :]
+            if cont == b"\x00":
+                break
+        else:
+            return False, "the ServiceSearchAttribute transaction does not end (40 continuation steps)"
+        want = bytes(sdp.DataElement.sequence([sdp.DataElement.sequence([e for i, v in self.record() for e in (sdp.DataElement.unsigned_integer_16(i), v)])]))
+        if data != want:
+            return False, f"attribute lists reassembled over the continuation steps {data.hex()} != {want.hex()}"
         return True, ""
 
 
@@ -527,7 +1278,66 @@ def avdtp_header(label, ptype, mtype):
 class AvdtpRig(DynRig):
     name = "avdtp"
     psm = avdtp.AVDTP_PSM
-    classes = DynRig.classes + ("frag_drop", "frag_dup", "frag_mislabel")
+    classes = DynRig.classes + ("frag_drop", "frag_dup", "frag_mislabel") + STRUCTURED + ("advance",)
+    phased = True  # reference transaction: a stream is configured, opened, started (Set Configuration, Open, Start)
+    SBC_CAPS = bytes([0x01, 0x00, 0x07, 0x06, 0x00, 0x00, 0x21, 0x15, 0x02, 0x35])  # media transport; media codec: audio / SBC
+
+    def single(self, signal, payload=b"", mtype=0, label=None):
+        return avdtp_header(self.rng.randrange(16) if label is None else label, 0, mtype) + bytes([signal & 0x3F]) + payload
+
+    def seid_byte(self, seid=None):
+        return bytes([((self.sink_ep.seid if seid is None else seid) & 0x3F) << 2])
+
+    def set_configuration(self, acp=None, int_seid=1, caps=None):
+        return self.single(0x03, self.seid_byte(acp) + self.seid_byte(int_seid) + (self.SBC_CAPS if caps is None else caps))
+
+    def advance_step(self, flavour, step):
+        if step == 0:
+            return self.set_configuration()
+        if step == 1:
+            return self.single(0x06, self.seid_byte())  # Open
+        if step == 2:
+            return self.single(0x07, self.seid_byte())  # Start
+        return self.single(0x09, self.seid_byte())  # Suspend
+
+    def starts_txn(self, unit):
+        return any(t == "chan" and len(d) >= 4 and d[0] & 0x0F == 0 and d[1] & 0x3F == 0x03 for t, d in unit)
+
+    async def abandon(self):
+        self.send_chan(self.single(0x0A, self.seid_byte()))  # Abort: the stream goes back to idle
+        await asyncio.sleep(0.3)
+
+    def command_classes(self):
+        return [c for c in _classes(avdtp, "", base=avdtp.Message, skip=("Simple_Command", "Simple_Reject")) if c.__name__.endswith("_Command")]
+
+    def inst_extreme(self):
+        """every numeric field of every command (SEIDs: 0 / 1 / 63, delays ...) at its boundary values; the length of a service
+        capability and the number of signal packets of a fragmented command at 0 / 1 / 255"""
+        def to_bytes(m):
+            return avdtp_header(self.rng.randrange(16), 0, int(m.message_type)) + bytes([int(m.signal_identifier)]) + bytes(m.payload)
+
+        out = []
+        for label, build in field_extremes(self.command_classes(), self.rng, to_bytes=to_bytes, ints=(1, 2, 5)):
+            out.append((label, build, label.startswith("Set_Configuration_Command")))
+        for n, t in ((0, "0"), (1, "1"), (255, "max")):
+            out.append((f"Set_Configuration_Command.capability.length={t}",
+                        lambda n=n: self.set_configuration(caps=bytes([0x01, 0x00, 0x07, n]) + mu.rand_bytes(self.rng, min(n, 40))), True))
+            out.append((f"START.number_of_signal_packets={t}", lambda n=n: avdtp_header(self.rng.randrange(16), 1, 0) + bytes([0x03, n]) + self.seid_byte()))
+        return out
+
+    def inst_out_of_phase(self):
+        """every signal as a response (accept / reject) nobody asked for, a general reject, and the stream commands while the
+        stream is in another state"""
+        out = []
+        for sig in range(1, 14):
+            out.append((f"signal_{sig}:response_accept", lambda sig=sig: self.single(sig, b"", 2)))
+            out.append((f"signal_{sig}:response_reject", lambda sig=sig: self.single(sig, b"\x04\x31"[: 2 if sig in (3, 5, 7, 9) else 1], 3)))
+        out.append(("general_reject", lambda: self.single(0x3F, b"", 1)))
+        for nm, sig in (("get_configuration", 4), ("reconfigure", 5), ("open", 6), ("start", 7), ("close", 8), ("suspend", 9), ("abort", 10),
+                        ("delay_report", 13)):
+            extra = b"\x00\x10" if sig == 13 else (self.SBC_CAPS[2:] if sig == 5 else b"")
+            out.append((f"{nm}:command", lambda sig=sig, extra=extra: self.single(sig, self.seid_byte() + extra)))
+        return out
 
     def prepare_victim(self):
         self.listener = avdtp.Listener.for_device(self.victim)
@@ -606,7 +1416,46 @@ class AvdtpRig(DynRig):
         frs[i] = bytes(b)
         return [("chan", f) for f in frs]
 
+    async def command(self, signal, payload, what):
+        label = self.rng.randrange(16)
+        n0 = len(self.rx)
+        self.send_chan(self.single(signal, payload, label=label))
+        got = await self.wait_for(lambda: [p for p in self.rx[n0:] if len(p) >= 2 and p[0] >> 4 == label and p[1] & 0x3F == signal])
+        if not got:
+            return None, f"AVDTP {what} (label {label}) not answered; frames since: {[p.hex() for p in self.rx[n0:]][:4]}"
+        if got[0][0] & 0x0F != 0x02:
+            return None, f"AVDTP {what} answered with {got[0].hex()} (not a single-packet Response Accept)"
+        return got[0], ""
+
     async def probe(self):
+        self.stage = "discover"
+        ok, why = await self.discover_probe()
+        if not ok:
+            return ok, why
+        # the complete transaction: capabilities, a stream configured, its configuration read back, the stream released
+        self.stage = "get-capabilities"
+        rsp, why = await self.command(0x02, self.seid_byte(), "Get Capabilities")
+        if rsp is None:
+            return False, why
+        if bytes([0x07, 0x06, 0x00, 0x00]) not in rsp[2:]:
+            return False, f"Get Capabilities response {rsp.hex()} does not list the SBC media codec capability"
+        self.stage = "set-configuration"
+        rsp, why = await self.command(0x03, self.seid_byte() + self.seid_byte(1) + self.SBC_CAPS, "Set Configuration")
+        if rsp is None:
+            return False, why
+        self.stage = "get-configuration"
+        rsp, why = await self.command(0x04, self.seid_byte(), "Get Configuration")
+        if rsp is None:
+            return False, why
+        if bytes([0x07, 0x06, 0x00, 0x00, 0x21, 0x15, 0x02, 0x35]) not in rsp[2:]:
+            return False, f"Get Configuration response {rsp.hex()} does not carry the configuration just set"
+        self.stage = "abort"
+        rsp, why = await self.command(0x0A, self.seid_byte(), "Abort")
+        if rsp is None:
+            return False, why
+        return True, ""
+
+    async def discover_probe(self):
         label = self.rng.randrange(16)
         n0 = len(self.rx)
         self.send_chan(avdtp_header(label, 0, 0) + b"\x01")  # Discover, single packet
@@ -626,8 +1475,47 @@ def avctp_header(label, ptype, cr, ipid=0):
 class AvctpRig(DynRig):
     name = "avctp"
     psm = avctp.AVCTP_PSM
-    classes = DynRig.classes + ("frag_drop", "frag_dup", "frag_mislabel", "avctp_bad_pid")
+    classes = DynRig.classes + ("frag_drop", "frag_dup", "frag_mislabel", "avctp_bad_pid") + STRUCTURED
     PID = 0x110E
+
+    # field layout of an AV/C frame in an AVCTP single packet (AV/C Digital Interface Command Set 5.3; AVRCP 6.3):
+    # ctype(4 bits) | subunit type(5) subunit id(3) | opcode(8) | operands
+    def avc(self, ctype=0, subunit_type=9, subunit_id=0, opcode=0x7C, operands=b"\x44\x00", cr=0, label=None):
+        frame = bytes([ctype & 0x0F, (subunit_type & 0x1F) << 3 | (subunit_id & 7), opcode & 0xFF]) + operands
+        return avctp_header(self.rng.randrange(16) if label is None else label, 0, cr) + struct.pack(">H", self.PID) + frame
+
+    def vendor(self, company=0x001958, pdu_id=0x10, packet_type=0, length=None, params=b"\x03", **kw):
+        body = company.to_bytes(3, "big") + bytes([pdu_id & 0xFF, packet_type & 0xFF]) + struct.pack(">H", len(params) if length is None else length) + params
+        return self.avc(opcode=0x00, operands=body, ctype=kw.pop("ctype", 1), **kw)
+
+    def inst_extreme(self):
+        out = []
+        for name, top in (("ctype", 0x0F), ("subunit_type", 0x1F), ("subunit_id", 7), ("opcode", 0xFF)):
+            for v, t in ((0, "0"), (1, "1"), (top, "max")):
+                out.append((f"AVC.{name}={t}", lambda name=name, v=v: self.avc(**{name: v})))
+        for v, t in ((0, "0"), (1, "1"), (0x7F, "max")):
+            out.append((f"PASS_THROUGH.operation_id={t}", lambda v=v: self.avc(operands=bytes([v, 0]))))
+        for n, t in ((0, "0"), (1, "1"), (255, "max")):
+            out.append((f"PASS_THROUGH.operation_data_length={t}", lambda n=n: self.avc(operands=bytes([0x44, n]) + mu.rand_bytes(self.rng, n))))
+        for v, t in ((0, "0"), (1, "1"), (0xFFFFFF, "max")):
+            out.append((f"VENDOR_DEPENDENT.company_id={t}", lambda v=v: self.vendor(company=v)))
+        for v, t in ((0, "0"), (1, "1"), (0xFF, "max")):
+            out.append((f"VENDOR_DEPENDENT.pdu_id={t}", lambda v=v: self.vendor(pdu_id=v)))
+            out.append((f"VENDOR_DEPENDENT.packet_type={t}", lambda v=v: self.vendor(packet_type=v)))
+        for n, t in ((0, "0"), (1, "1"), (500, "max")):
+            out.append((f"VENDOR_DEPENDENT.parameter_length={t}", lambda n=n: self.vendor(params=mu.rand_bytes(self.rng, n))))
+        return out
+
+    def inst_out_of_phase(self):
+        """every AV/C response code in a response nobody asked for (PASS THROUGH and VENDOR DEPENDENT), with and without the
+        response bit of AVCTP"""
+        out = []
+        for code in range(0x8, 0x10):
+            out.append((f"PASS_THROUGH:response_{code:x}", lambda code=code: self.avc(ctype=code, cr=1)))
+            out.append((f"VENDOR_DEPENDENT:response_{code:x}", lambda code=code: self.vendor(ctype=code, cr=1)))
+        out.append(("PASS_THROUGH:command_with_response_bit", lambda: self.avc(ctype=0, cr=1)))
+        out.append(("PASS_THROUGH:response_without_response_bit", lambda: self.avc(ctype=0x9, cr=0)))
+        return out
 
     def prepare_victim(self):
         self.avrcp = avrcp.Protocol()
@@ -704,6 +1592,7 @@ class AvctpRig(DynRig):
         return avctp_header(self.rng.randrange(16), 0, self.rng.randrange(2), self.rng.randrange(2)) + struct.pack(">H", pid) + self.rng.choice(self.avc_frames())
 
     async def probe(self):
+        self.stage = "pass-through"
         label = self.rng.randrange(16)
         n0 = len(self.rx)
         cmd = avc.PassThroughCommandFrame(avc.CommandFrame.CommandType.CONTROL, avc.Frame.SubunitType.PANEL, 0,
@@ -718,6 +1607,17 @@ class AvctpRig(DynRig):
             avc.PassThroughFrame.OperationId.PLAY, b""))
         if p != want:
             return False, f"PASS THROUGH response {p.hex()} != {want.hex()}"
+        # ... and the other half of what a controller relies on: an AVRCP vendor dependent command (GetCapabilities)
+        self.stage = "vendor-dependent"
+        label = (label + 1) & 0x0F
+        n0 = len(self.rx)
+        self.send_chan(self.vendor(label=label))
+        got = await self.wait_for(lambda: [p for p in self.rx[n0:] if len(p) >= 3 and p[0] >> 4 == label and p[0] & 2])
+        if not got:
+            return False, f"AVRCP GetCapabilities command (label {label}) not answered; frames since: {[p.hex() for p in self.rx[n0:]][:4]}"
+        p = got[0]
+        if len(p) < 13 or p[1:3] != struct.pack(">H", self.PID) or p[5] != 0x00 or p[6:9] != b"\x00\x19\x58" or p[9] != 0x10:
+            return False, f"GetCapabilities answered with {p.hex()} (not a VENDOR DEPENDENT response for PDU 0x10)"
         return True, ""
 
 
@@ -735,19 +1635,140 @@ def rfcomm_fcs_ok(frame):
     return (0xFF - fcs) == frame[-1]
 
 
+# the numeric fields of an RFCOMM Parameter Negotiation (TS 07.10 5.4.6.3.1 / RFCOMM 5.5.3): name, largest value
+PN_LAYOUT = (("cl", 0xFF), ("priority", 0xFF), ("ack_timer", 0xFF), ("max_frame_size", 0xFFFF), ("max_retransmissions", 0xFF),
+             ("initial_credits", 7))
+MSC_LAYOUT = (("fc", 1), ("rtc", 1), ("rtr", 1), ("ic", 1), ("dv", 1))
+
+
 class RfcommRig(DynRig):
     name = "rfcomm"
     psm = rfcomm.RFCOMM_PSM
-    classes = DynRig.classes + ("rfc_len_ea", "rfc_bad_fcs", "rfc_unknown_dlci", "rfc_mcc", "rfc_disc")
+    classes = DynRig.classes + ("rfc_len_ea", "rfc_bad_fcs", "rfc_unknown_dlci", "rfc_mcc", "rfc_disc") + STRUCTURED + ("advance",)
+    phased = True
+    settle = 0.3
 
     def prepare_victim(self):
         self.victim_dlcs = []
         self.server = rfcomm.Server(self.victim)
         self.channel_number = self.server.listen(self.on_victim_dlc)
+        # two more server channels with the same kind of application: one the probe opens a DLC on, one the
+        # injected units negotiate (PN with boundary values) and then use
+        self.channel_probe = self.server.listen(self.on_side_dlc)
+        self.channel_raw = self.server.listen(self.on_side_dlc)
 
     def on_victim_dlc(self, dlc):
         self.victim_dlcs.append(dlc)
         dlc.sink = lambda data: dlc.write(b"echo:" + data)
+
+    def on_side_dlc(self, dlc):
+        dlc.sink = lambda data: dlc.write(b"echo:" + data)
+
+    # --- raw frames of a well-behaved initiator for the server channel `channel_raw`
+    @property
+    def raw_dlci(self):
+        return self.channel_raw << 1
+
+    def pn_command(self, dlci=None, **kw):
+        f = dict(dlci=self.raw_dlci if dlci is None else dlci, cl=0xF0, priority=7, ack_timer=0, max_frame_size=100, max_retransmissions=0,
+                 initial_credits=7)
+        f.update(kw)
+        pn = bytes([f["dlci"] & 0xFF, f["cl"] & 0xFF, f["priority"] & 0xFF, f["ack_timer"] & 0xFF, f["max_frame_size"] & 0xFF,
+                    (f["max_frame_size"] >> 8) & 0xFF, f["max_retransmissions"] & 0xFF, f["initial_credits"] & 0xFF])
+        F = rfcomm.RFCOMM_Frame
+        return bytes(F.uih(1, 0, F.make_mcc(rfcomm.MccType.PN, 1, pn)))
+
+    def use_dlc(self, dlci=None):
+        """normal use of a DLC just negotiated: open it (SABM), answer nothing else, write on it, grant credits, write again;
+        the victim application echoes, i.e. writes on it too (frames sent back to back: an RFCOMM initiator need not wait)"""
+        d = self.raw_dlci if dlci is None else dlci
+        F = rfcomm.RFCOMM_Frame
+        return [("chan", bytes(F.sabm(1, d))), ("chan", bytes(F.uih(1, d, b"C17-use-1\r"))),
+                ("chan", bytes(F.uih(1, d, bytes([5]) + b"C17-use-2\r", p_f=1))), ("chan", bytes(F.uih(1, d, b"C17-use-3\r")))]
+
+    def advance_step(self, flavour, step):
+        F = rfcomm.RFCOMM_Frame
+        d = self.raw_dlci
+        if step == 0:
+            return self.pn_command()
+        if step == 1:
+            return bytes(F.sabm(1, d))
+        if step == 2:
+            return bytes(F.uih(1, d, bytes([3]) + b"C17-step\r", p_f=1))
+        return bytes(F.uih(1, d, mu.rand_bytes(self.rng, 8)))
+
+    def starts_txn(self, unit):
+        for t, f in unit:
+            if t != "chan" or len(f) < 4 or not rfcomm_fcs_ok(f):
+                continue
+            dlci = f[0] >> 2
+            if f[1] & 0xEF == 0x2F and dlci not in (0, self.dlc.dlci):
+                return True  # SABM for another DLCI
+            if f[1] & 0xEF == 0xEF and dlci == 0 and len(f) >= 6 and f[3] >> 2 == 0x20 and f[3] & 2:
+                return True  # PN command
+        return False
+
+    async def abandon(self):
+        # close whatever DLC the injected units opened or half-opened on the side channel: DISC, the ordinary way
+        self.send_chan(bytes(rfcomm.RFCOMM_Frame.disc(1, self.raw_dlci)))
+        await asyncio.sleep(0.3)
+
+    def inst_extreme(self):
+        F = rfcomm.RFCOMM_Frame
+        out = []
+        for name, top in PN_LAYOUT:
+            for v, txt in ((0, "0"), (1, "1"), (top, "max")):
+                out.append((f"PN.{name}={txt}", lambda name=name, v=v: [("chan", self.pn_command(**{name: v}))] + self.use_dlc()))
+        # modem status for the DLC under test, every signal bit alone / all set, then use of that DLC
+        def msc(**kw):
+            f = dict(fc=0, rtc=0, rtr=0, ic=0, dv=0)
+            f.update(kw)
+            return bytes(F.uih(1, 0, F.make_mcc(rfcomm.MccType.MSC, 1, bytes(rfcomm.RFCOMM_MCC_MSC(self.dlc.dlci, **f)))))
+
+        for name, _ in MSC_LAYOUT:
+            out.append((f"MSC.{name}=1", lambda name=name: [("chan", msc(**{name: 1})), ("chan", bytes(F.uih(1, self.dlc.dlci, b"C17-after-msc")))]))
+        out.append(("MSC.all=0", lambda: [("chan", msc()), ("chan", bytes(F.uih(1, self.dlc.dlci, b"C17-after-msc")))]))
+        out.append(("MSC.all=1", lambda: [("chan", msc(fc=1, rtc=1, rtr=1, ic=1, dv=1)), ("chan", bytes(F.uih(1, self.dlc.dlci, b"C17-after-msc")))]))
+        # the credit field of a UIH frame on the open DLC, then data on it
+        for v, txt in ((0, "0"), (1, "1"), (255, "max")):
+            out.append((f"UIH.credits={txt}", lambda v=v: [("chan", bytes(F.uih(1, self.dlc.dlci, bytes([v]) + b"C17-credit", p_f=1))),
+                                                           ("chan", bytes(F.uih(1, self.dlc.dlci, b"C17-after-credit")))]))
+        # information field of length 0 / 1 / the largest frame negotiated
+        for n, txt in ((0, "0"), (1, "1"), (rfcomm.RFCOMM_DEFAULT_MAX_FRAME_SIZE, "max")):
+            out.append((f"UIH.length={txt}", lambda n=n: bytes(F.uih(1, self.dlc.dlci, mu.rand_bytes(self.rng, n)))))
+        return out
+
+    def inst_out_of_phase(self):
+        """well-formed frames that answer nothing or belong to another state of the DLC / the multiplexer"""
+        F = rfcomm.RFCOMM_Frame
+        own = lambda: self.dlc.dlci
+        raw = lambda: self.raw_dlci
+        mcc = lambda t, cr, v: bytes(F.uih(1, 0, F.make_mcc(t, cr, v)))
+        pn = lambda d: bytes(rfcomm.RFCOMM_MCC_PN(d, 0xE0, 7, 0, 100, 0, 7))
+        msc = lambda d: bytes(rfcomm.RFCOMM_MCC_MSC(d, 0, 1, 1, 0, 1))
+        out = []
+        for nm, d in (("mux", lambda: 0), ("open_dlc", own), ("closed_dlc", raw)):
+            out.append((f"UA:{nm}", lambda d=d: bytes(F.ua(1, d()))))
+            out.append((f"DM:{nm}", lambda d=d: bytes(F.dm(1, d()))))
+            out.append((f"SABM:{nm}", lambda d=d: bytes(F.sabm(1, d()))))
+        out.append(("DISC:closed_dlc", lambda: bytes(F.disc(1, raw()))))
+        out.append(("UIH:closed_dlc", lambda: bytes(F.uih(1, raw(), b"C17-nobody"))))
+        out.append(("UIH_credits:closed_dlc", lambda: bytes(F.uih(1, raw(), bytes([7]) + b"C17-nobody", p_f=1))))
+        out.append(("UIH_credits:mux", lambda: bytes(F.uih(1, 0, bytes([7]), p_f=1))))
+        out.append(("PN_response:open_dlc", lambda: mcc(rfcomm.MccType.PN, 0, pn(own()))))
+        out.append(("PN_response:closed_dlc", lambda: mcc(rfcomm.MccType.PN, 0, pn(raw()))))
+        out.append(("PN_command:open_dlc", lambda: mcc(rfcomm.MccType.PN, 1, pn(own()))))
+        out.append(("PN_command:initiator_dlci", lambda: mcc(rfcomm.MccType.PN, 1, pn(raw() | 1))))
+        out.append(("MSC_response:open_dlc", lambda: mcc(rfcomm.MccType.MSC, 0, msc(own()))))
+        out.append(("MSC_response:closed_dlc", lambda: mcc(rfcomm.MccType.MSC, 0, msc(raw()))))
+        out.append(("MSC_command:closed_dlc", lambda: mcc(rfcomm.MccType.MSC, 1, msc(raw()))))
+        # multiplexer commands of TS 07.10 every peer may send at any time: Test, FCon, FCoff, RPN, RLS, NSC
+        for nm, t, v in (("TEST", 0x08, b"C17"), ("FCON", 0x28, b""), ("FCOFF", 0x18, b""), ("RPN", 0x24, lambda: bytes([own() << 2 | 3])),
+                         ("RPN_full", 0x24, lambda: bytes([own() << 2 | 3, 3, 3, 0, 0x11, 0x13, 0x7F, 0x3F])),
+                         ("RLS", 0x14, lambda: bytes([own() << 2 | 3, 0])), ("NSC", 0x04, bytes([0x23]))):
+            for cr in (1, 0):
+                out.append((f"{nm}_{'command' if cr else 'response'}", lambda t=t, v=v, cr=cr: mcc(t, cr, v() if callable(v) else v)))
+        return out
 
     async def open_channel(self):
         self.closed_by_harness = False
@@ -858,6 +1879,7 @@ class RfcommRig(DynRig):
         return "none"
 
     async def probe(self):
+        self.stage = "open-dlc-data"
         n0 = len(self.dlc_rx)
         if self.dlc.state != rfcomm.DLC.State.CONNECTED:
             return False, f"attacking side's DLC is {self.dlc.state.name}"
@@ -865,6 +1887,30 @@ class RfcommRig(DynRig):
         got = await self.wait_for(lambda: b"".join(self.dlc_rx[n0:]) == b"echo:C17-ping")
         if not got:
             return False, f"data sent on the open DLC was not echoed by the victim application; received {b''.join(self.dlc_rx[n0:])!r}"
+        return await self.probe_new_dlc()
+
+    async def probe_new_dlc(self):
+        """the complete transaction: a new DLC negotiated and opened on the same multiplexer (PN, SABM / UA, MSC), data
+        larger than one frame exchanged both ways, the DLC closed (DISC / UA)"""
+        self.stage = "new-dlc"
+        try:
+            dlc = await asyncio.wait_for(self.mux.open_dlc(self.channel_probe), 20)
+        except Exception as e:
+            return False, f"a new DLC could not be opened on the same multiplexer: {type(e).__name__}: {e}"
+        rx = []
+        dlc.sink = lambda data: rx.append(bytes(data))
+        payload = b"C17-" + bytes(range(256)) * 3
+        dlc.write(payload)
+        want = b"echo:" + payload
+        got = await self.wait_for(lambda: len(b"".join(rx)) >= len(want), timeout=10)
+        if b"".join(rx) != want:
+            return False, (f"{len(payload)} bytes written on a newly opened DLC were not echoed correctly by the victim application: "
+                           f"received {len(b''.join(rx))} bytes {b''.join(rx)[:24]!r}..")
+        self.stage = "close-dlc"
+        try:
+            await asyncio.wait_for(dlc.disconnect(), 20)
+        except Exception as e:
+            return False, f"the new DLC could not be closed: {type(e).__name__}: {e}"
         return True, ""
 
 
@@ -898,12 +1944,47 @@ class HfpAgRig(RfcommRig):
     """victim = AgProtocol on the DLC; the attacking side writes raw bytes into the AT stream (through bumble's own
     RFCOMM, i.e. as a well-behaved RFCOMM peer)"""
     name = "hfp_ag"
-    classes = AT_CLASSES
+    classes = AT_CLASSES + STRUCTURED
+    phased = False
     TERM = b"\r"
 
     def on_victim_dlc(self, dlc):
         self.victim_dlcs.append(dlc)
         self.ag = hfp.AgProtocol(dlc, ag_configuration())
+        self.ag_events = []
+        self.ag.on(self.ag.EVENT_SPEAKER_VOLUME, lambda level: self.ag_events.append(("speaker_volume", level)))
+
+    def starts_txn(self, unit):
+        return False
+
+    # AT commands with numeric parameters: name, number of parameters (the layout the boundary values are enumerated from)
+    AT_NUMERIC = (("+VGS", 1), ("+VGM", 1), ("+BRSF", 1), ("+CMEE", 1), ("+CHLD", 1), ("+BCS", 1), ("+BAC", 2), ("+BIEV", 2), ("+BIA", 3),
+                  ("+CMER", 4), ("+CLIP", 1), ("+CCWA", 1), ("+NREC", 1), ("+BVRA", 1), ("+COPS", 2), ("+VTS", 1), ("+BIND", 2), ("+CKPD", 1),
+                  ("+BTRH", 1), ("+BINP", 1))
+    AT_DEFAULTS = {"+CMER": [3, 0, 0, 1], "+COPS": [3, 0], "+BAC": [1, 2], "+BIEV": [2, 50], "+BIA": [1, 1, 1], "+BIND": [1, 2]}
+
+    def inst_extreme(self):
+        out = []
+        for name, n in self.AT_NUMERIC:
+            for k in range(n):
+                for v, t in ((0, "0"), (1, "1"), (4294967295, "max")):
+                    def build(name=name, n=n, k=k, v=v):
+                        vals = list(self.AT_DEFAULTS.get(name, [1] * n))
+                        vals[k] = v
+                        return self.wrap(b"AT" + name.encode() + b"=" + b",".join(str(x).encode() for x in vals))
+
+                    out.append((f"AT{name}.p{k + 1}={t}", build))
+        for v, t in ((0, "0"), (1, "1"), (4294967295, "max")):
+            out.append((f"ATD>.memory={t}", lambda v=v: self.wrap(b"ATD>" + str(v).encode() + b";")))
+        return out
+
+    def inst_out_of_phase(self):
+        """well-formed commands of another phase of the connection: codec confirmation without a negotiation, call control without
+        a call, service level connection steps again, result codes (which only an AG sends)"""
+        lines = [b"AT+BCS=1", b"AT+BCS=2", b"AT+BCC", b"ATA", b"AT+CHUP", b"AT+CHLD=0", b"AT+CHLD=1", b"AT+CHLD=2", b"AT+CHLD=3", b"AT+BTRH=1",
+                 b"AT+BLDN", b"AT+BRSF=1023", b"AT+BAC=1", b"AT+CIND=?", b"AT+CMER=3,0,0,0", b"AT+CHLD=?", b"AT+BIND=?", b"AT+BIND?", b"AT+BVRA=0",
+                 b"AT+VTS=1", b"OK", b"ERROR", b"+CIEV: 1,1", b"+BCS: 2", b"RING", b"+CME ERROR: 30"]
+        return [(l.decode(), lambda l=l: self.wrap(l)) for l in lines]
 
     async def open_channel(self):
         await super().open_channel()
@@ -972,6 +2053,7 @@ class HfpAgRig(RfcommRig):
         if getattr(self, "tail", b"") and not self.tail.endswith(self.TERM):
             self.dlc.write(self.TERM)
             await asyncio.sleep(0.2)
+        self.stage = "query"
         n0 = len(self.dlc_rx)
         self.dlc.write(b"AT+CIND?" + self.TERM)
         import re
@@ -980,13 +2062,76 @@ class HfpAgRig(RfcommRig):
         got = await self.wait_for(lambda: pat.search(b"".join(self.dlc_rx[n0:])))
         if not got:
             return False, f"AT+CIND? not answered with +CIND: .. / OK; received {b''.join(self.dlc_rx[n0:])!r}"
+        # the rest of a full AT exchange: a command that reaches the application, an unsolicited result code, and a
+        # transaction the AG starts (codec negotiation: +BCS / AT+BCS= / OK)
+        self.stage = "command-to-application"
+        self.n_probe = getattr(self, "n_probe", 0) + 1
+        level = 3 + self.n_probe % 10
+        n0, e0 = len(self.dlc_rx), len(self.ag_events)
+        self.dlc.write(b"AT+VGS=%d" % level + self.TERM)
+        got = await self.wait_for(lambda: b"\r\nOK\r\n" in b"".join(self.dlc_rx[n0:]) and self.ag_events[e0:])
+        if not got or self.ag_events[e0:][0] != ("speaker_volume", level):
+            return False, f"AT+VGS={level} not answered OK / not delivered to the application: received {b''.join(self.dlc_rx[n0:])!r}, events {self.ag_events[e0:]}"
+        self.stage = "unsolicited"
+        n0 = len(self.dlc_rx)
+        self.ag.update_ag_indicator(hfp.AgIndicator.SIGNAL, 1 + self.n_probe % 4)
+        want = b"\r\n+CIEV: 5,%d\r\n" % (1 + self.n_probe % 4)
+        got = await self.wait_for(lambda: want in b"".join(self.dlc_rx[n0:]))
+        if not got:
+            return False, f"the AG's indicator update did not reach the peer as {want!r}: received {b''.join(self.dlc_rx[n0:])!r}"
+        self.stage = "codec-negotiation"
+        n0 = len(self.dlc_rx)
+        task = asyncio.get_running_loop().create_task(self.ag.negotiate_codec(hfp.AudioCodec.MSBC))
+        got = await self.wait_for(lambda: b"+BCS: 2" in b"".join(self.dlc_rx[n0:]))
+        if not got:
+            task.cancel()
+            return False, f"codec negotiation started by the AG: no +BCS: 2; received {b''.join(self.dlc_rx[n0:])!r}"
+        self.dlc.write(b"AT+BCS=2" + self.TERM)
+        try:
+            await asyncio.wait_for(task, 10)
+        except Exception as e:
+            return False, f"codec negotiation started by the AG did not complete after AT+BCS=2: {type(e).__name__}: {e}; received {b''.join(self.dlc_rx[n0:])!r}"
+        if not await self.wait_for(lambda: b"\r\nOK\r\n" in b"".join(self.dlc_rx[n0:])):
+            return False, f"AT+BCS=2 not answered OK: {b''.join(self.dlc_rx[n0:])!r}"
         return True, ""
 
 
 class HfpHfRig(RfcommRig):
     """victim = HfProtocol (RFCOMM server side here); the attacking side plays a raw AG"""
     name = "hfp_hf"
-    classes = AT_CLASSES
+    classes = AT_CLASSES + STRUCTURED
+    phased = False
+
+    def starts_txn(self, unit):
+        return False
+
+    # result codes with numeric parameters: name, number of parameters
+    RC_NUMERIC = (("+CIEV", 2), ("+VGS", 1), ("+VGM", 1), ("+BCS", 1), ("+BVRA", 1), ("+CME ERROR", 1), ("+BSIR", 1), ("+BRSF", 1), ("+BTRH", 1),
+                  ("+CIND", 7), ("+BIND", 2), ("+CHLD", 1), ("+COPS", 2))
+
+    def inst_extreme(self):
+        out = []
+        for name, n in self.RC_NUMERIC:
+            for k in range(n):
+                for v, t in ((0, "0"), (1, "1"), (4294967295, "max")):
+                    def build(name=name, n=n, k=k, v=v):
+                        vals = [1] * n
+                        vals[k] = v
+                        return self.wrap(name.encode() + b": " + b",".join(str(x).encode() for x in vals))
+
+                    out.append((f"{name}.p{k + 1}={t}", build))
+        for v, t in ((0, "0"), (1, "1"), (4294967295, "max")):
+            out.append((f"+CLIP.type={t}", lambda v=v: self.wrap(b'+CLIP: "1234567",' + str(v).encode())))
+            out.append((f"+CLCC.index={t}", lambda v=v: self.wrap(str(v).encode().join([b"+CLCC: ", b',1,0,0,0,"1234567",129']))))
+        return out
+
+    def inst_out_of_phase(self):
+        """final result codes without a command, answers to queries nobody made, commands (which only an HF sends)"""
+        lines = [b"OK", b"ERROR", b"+CME ERROR: 30", b"NO CARRIER", b"BUSY", b"NO ANSWER", b"DELAYED", b"BLACKLISTED", b"+CIND: 0,1,0,0,3,0,4",
+                 b'+CIND: ("call",(0,1)),("service",(0,1))', b"+CHLD: (0,1,2)", b"+BRSF: 1519", b'+COPS: 0,0,"Bumble"', b'+CLCC: 1,1,0,0,0,"1234567",129',
+                 b"+BIND: (1,2)", b"+BIND: 1,1", b'+CNUM: ,"5551212",129,,4', b"+BINP: 1234", b"+BTRH: 0", b"+BCS: 1", b"+BCS: 2", b"AT+CIND?", b"AT+BRSF=1023",
+                 b"OK\r\n\r\nOK"]
+        return [(l.decode(), lambda l=l: self.wrap(l)) for l in lines]
 
     def on_victim_dlc(self, dlc):
         self.victim_dlcs.append(dlc)
@@ -1030,6 +2175,8 @@ class HfpHfRig(RfcommRig):
                 self.dlc.write(b"\r\n+BIND: (1,2)\r\n\r\nOK\r\n")
             elif line == b"AT+BIND?":
                 self.dlc.write(b"\r\n+BIND: 1,1\r\n\r\n+BIND: 2,1\r\n\r\nOK\r\n")
+            elif line == b"AT+CLCC":
+                self.dlc.write(b'\r\n+CLCC: 1,1,0,0,0,"1234567",129\r\n\r\nOK\r\n')
             else:
                 self.dlc.write(b"\r\nOK\r\n")
 
@@ -1083,6 +2230,7 @@ class HfpHfRig(RfcommRig):
         if getattr(self, "tail", b"") and not self.tail.endswith(b"\r\n"):
             self.dlc.write(b"\r\n")
             await asyncio.sleep(0.2)
+        self.stage = "query"
         try:
             rsp = await asyncio.wait_for(self.hf.execute_command("AT+CIND?", timeout=5.0, response_type=hfp.AtResponseType.SINGLE), 30)
         except Exception as e:
@@ -1096,6 +2244,14 @@ class HfpHfRig(RfcommRig):
             return False, "unsolicited '+CIEV: 5,2' did not produce an ag_indicator event" + (" (HfProtocol.run() has terminated)" if self.hf_task.done() else "")
         if got[0][1] != 2:
             return False, f"ag_indicator event {got[0]} for '+CIEV: 5,2'"
+        # a query with a multi-line answer, completed by the AG's OK
+        self.stage = "multi-line-query"
+        try:
+            calls = await asyncio.wait_for(self.hf.query_current_calls(), 30)
+        except Exception as e:
+            return False, f"HF query AT+CLCC answered by the AG with one '+CLCC:' line and 'OK' ended with {type(e).__name__}: {e}"
+        if len(calls) != 1 or getattr(calls[0], "number", None) != "1234567":
+            return False, f"HF query AT+CLCC returned {calls}"
         return True, ""
 
 
@@ -1103,8 +2259,9 @@ class HfpHfRig(RfcommRig):
 class LeCocRig(Rig):
     name = "le_coc"
     fixed = False
-    classes = mu.GENERIC + ("coc_sdu_len_lie", "coc_oversize", "coc_zero_credit_flood", "chan_disc")
+    classes = mu.GENERIC + ("coc_sdu_len_lie", "coc_oversize", "coc_zero_credit_flood", "chan_disc") + STRUCTURED
     PSM = 0x0080
+    settle = 0.3
 
     def prepare_victim(self):
         self.victim_channels = []
@@ -1158,6 +2315,40 @@ class LeCocRig(Rig):
     def len_fields(self, pdu):
         return ((0, 2, "little"),)
 
+    def inst_extreme(self):
+        """well-formed K-frames whose SDU length takes a boundary value (0, 1, the MTU, the largest value), and credit packets
+        of 0 / 1 / 65535 credits for the channel followed by its normal use (an SDU the victim application echoes)"""
+        def kframes(n):
+            self.dirty = True
+            sdu = struct.pack("<H", n) + mu.rand_bytes(self.rng, min(n, 256))
+            return [("chan", sdu[i : i + 64]) for i in range(0, len(sdu), 64)]
+
+        def credits(n):
+            self.dirty = True
+            cr = l2cap.L2CAP_LE_Flow_Control_Credit(identifier=self.next_ident(), cid=self.chan.source_cid, credits=n)
+            return [("sig", bytes(cr)), ("chan", struct.pack("<H", 8) + b"C17-use1")]
+
+        out = [(f"SDU.length={t}", lambda n=n: kframes(n)) for n, t in ((0, "0"), (1, "1"), (256, "mtu"), (0xFFFF, "max"))]
+        out += [(f"L2CAP_LE_Flow_Control_Credit.credits={t}", lambda n=n: credits(n)) for n, t in ((0, "0"), (1, "1"), (0xFFFF, "max"))]
+        return out
+
+    def inst_out_of_phase(self):
+        """well-formed signalling PDUs that name this channel but answer nothing (the channel itself is not written on)"""
+        ch = lambda: self.chan
+        return [
+            ("L2CAP_LE_Credit_Based_Connection_Response", lambda: [("sig", bytes(l2cap.L2CAP_LE_Credit_Based_Connection_Response(
+                identifier=self.next_ident(), destination_cid=ch().source_cid, mtu=23, mps=23, initial_credits=1, result=0)))]),
+            ("L2CAP_Disconnection_Response", lambda: [("sig", bytes(l2cap.L2CAP_Disconnection_Response(
+                identifier=self.next_ident(), destination_cid=ch().destination_cid, source_cid=ch().source_cid)))]),
+            ("L2CAP_LE_Flow_Control_Credit:peer_cid", lambda: [("sig", bytes(l2cap.L2CAP_LE_Flow_Control_Credit(
+                identifier=self.next_ident(), cid=ch().destination_cid, credits=3)))]),
+            ("L2CAP_Credit_Based_Reconfigure_Request", lambda: [("sig", bytes(l2cap.L2CAP_Credit_Based_Reconfigure_Request(
+                identifier=self.next_ident(), mtu=64, mps=64, destination_cid=[ch().source_cid])))]),
+            ("L2CAP_Command_Reject", lambda: [("sig", bytes(l2cap.L2CAP_Command_Reject(identifier=self.next_ident(), reason=0, data=b"")))]),
+            ("L2CAP_Configure_Request", lambda: [("sig", bytes(l2cap.L2CAP_Configure_Request(
+                identifier=self.next_ident(), destination_cid=ch().destination_cid, flags=0, options=b"\x01\x02\x30\x00")))]),
+        ]
+
     def gen_coc_sdu_len_lie(self):
         r = self.rng
         return r.choice([b"", b"\x05", struct.pack("<H", 200) + b"abc", struct.pack("<H", 0xFFFF) + b"abc", struct.pack("<H", 2) + b"abcdef",
@@ -1181,6 +2372,7 @@ class LeCocRig(Rig):
         return "chan" if cls == "chan_disc" else "none"
 
     async def probe(self):
+        self.stage = "sdu"
         n0 = len(self.sdus)
         self.chan.write(b"C17-ping")
         got = await self.wait_for(lambda: self.sdus[n0:])
@@ -1188,6 +2380,15 @@ class LeCocRig(Rig):
             return False, "SDU written on the open LE credit based channel was not echoed by the victim application"
         if got[0] != b"echo:C17-ping":
             return False, f"echo {got[0]!r}"
+        # SDUs larger than the MPS, several in a row: segmentation and credits both ways
+        self.stage = "large-sdus"
+        n0 = len(self.sdus)
+        big = [bytes([k]) + bytes(range(200)) for k in range(4)]
+        for b in big:
+            self.chan.write(b)
+        await self.wait_for(lambda: len(self.sdus[n0:]) >= len(big), timeout=10)
+        if self.sdus[n0:] != [b"echo:" + b for b in big]:
+            return False, f"{len(big)} SDUs of 201 bytes were not echoed correctly by the victim application: got {[x[:8] for x in self.sdus[n0:]]}"
         return True, ""
 
 
@@ -1203,11 +2404,59 @@ class HciRig(AttRig):
     allow_stream = False  # units are whole (possibly malformed) HCI packets: there is no byte stream to re-frame
     classes = ("evt_valid", "evt_trunc", "evt_extend", "evt_bitflip", "evt_badlen", "evt_unknown", "random",
                "acl_cont_orphan", "acl_start_short", "acl_excess", "acl_start_start", "acl_bad_handle", "acl_bad_l2cap_len", "acl_pb_reserved",
-               "iso_bad", "sco_bad", "pkt_unknown_type", "evt_disconnect")
+               "iso_bad", "sco_bad", "pkt_unknown_type", "evt_disconnect") + STRUCTURED
+    phased = False
 
     def send_unit(self, unit):
         for target, data in unit:
             self.net.stacks[1].tap.inject_to_host(data)
+
+    def starts_txn(self, unit):
+        return False
+
+    def event_classes(self):
+        classes = list(hci.HCI_Event.event_classes.values()) + list(hci.HCI_LE_Meta_Event.subevent_classes.values())
+        return [c for c in sorted(classes, key=lambda c: c.__name__) if c.__name__ != "HCI_Disconnection_Complete_Event"]
+
+    HANDLE_FIELDS = ("connection_handle", "handle")
+
+    def _event(self, c, r, value=None):
+        ov = {}
+        if value is not None:
+            for name, top in int_fields(c):
+                ov[name] = {0: 0, 1: 1}.get(value, top)
+        for name in self.HANDLE_FIELDS:
+            if any(f.name == name for f in dataclasses.fields(c)):
+                ov[name] = getattr(self, "vhandle", 0x0001)
+        b = bytes(auto_build(c, r, ints=(0, 1, 2, 0xFF), size=8, overrides=ov))
+        hci.HCI_Packet.from_bytes(b)
+        return b
+
+    def _event_instances(self, values):
+        import random as _random
+
+        out = []
+        for c in self.event_classes():
+            if not dataclasses.is_dataclass(c) or (values != (None,) and not [n for n, _ in int_fields(c) if n not in self.HANDLE_FIELDS]):
+                continue
+            for v in values:
+                try:
+                    self._event(c, _random.Random(0), v)
+                except Exception:
+                    continue
+                txt = "" if v is None else f".numeric_fields={v if v != 2 else 'max'}"
+                out.append((c.__name__ + txt, lambda c=c, v=v: self._event(c, self.rng, v)))
+        return out
+
+    def inst_extreme(self):
+        """every event class the Host parses, all its numeric fields (counts, intervals, status ...; the connection handle stays the
+        victim's) at 0 / at 1 / at their largest value"""
+        return self._event_instances((0, 1, 2))
+
+    def inst_out_of_phase(self):
+        """every event class once, well-formed, for the victim's connection: completions of commands never sent, of procedures
+        never started"""
+        return self._event_instances((None,))
 
     def events(self):
         if hasattr(self, "_events"):
